@@ -256,7 +256,10 @@ func (m Media) URL(contentBase *base.URL) (*base.URL, error) {
 		strURL += "/"
 	}
 
-	ur, _ := base.ParseURL(strURL + m.Control)
+	ur, err := base.ParseURL(strURL + m.Control)
+	if err != nil {
+		return nil, err
+	}
 	return ur, nil
 }
 
